@@ -47,6 +47,7 @@ def repXB (h : Heap) (fs : Slots) (ex : Extra) : Bool :=
     | .imm t => fs.lookup e.1 == some (.imm t)
     | .arr dd => arrAt h (fs.lookup e.1) == some dd
     | .dict _ => true
+    | .deep _ => true
 
 theorem repXB_sound {h : Heap} {fs : Slots} {ex : Extra} (e : repXB h fs ex = true) : RepX h fs ex := by
   intro x xv hm
@@ -61,6 +62,7 @@ theorem repXB_sound {h : Heap} {fs : Slots} {ex : Extra} (e : repXB h fs ex = tr
     obtain ⟨b, hb1, hb2⟩ := arrAt_some h2
     exact ⟨b, hb1, hb2⟩
   | dict items => trivial
+  | deep toks => trivial
 
 def labelOKB (h : Heap) (c : SCls) (fs : Slots) : Bool :=
   c != .LabelledPointUndirectedGraph ||
